@@ -63,9 +63,64 @@ AUDIT = {
 KNOWN_ASSERTS = ("BoundsCheck", "Overflow", "DivisionByZero", "RemainderByZero")
 PANICKY = ("core::panicking", "::unwrap", "::expect", "unwrap_failed", "expect_failed", "::unwrap_err", "::expect_err", "Index::index", "IndexMut::index_mut", "begin_panic", "assert_failed")
 NOT_PANICKY = ("unwrap_or", "unwrap_or_default", "unwrap_or_else")
+# std functions that take a position / size and panic when it is out of range, not on a character boundary, or zero
+# (documented "# Panics" sections); each call site is audited like an explicit panic site unless its position argument is
+# evidently harmless (see std_position_ok)
+PANICKY_STD = (
+    "std::string::String::truncate", "std::string::String::remove", "std::string::String::insert", "std::string::String::insert_str", "std::string::String::split_off",
+    "std::string::String::drain", "std::string::String::replace_range", "core::str::<impl str>::split_at", "core::str::<impl str>::split_at_mut",
+    "std::vec::Vec::remove", "std::vec::Vec::insert", "std::vec::Vec::swap_remove", "std::vec::Vec::split_off", "std::vec::Vec::drain", "std::vec::Vec::extend_from_within",
+    "core::slice::<impl [T]>::split_at", "core::slice::<impl [T]>::split_at_mut", "core::slice::<impl [T]>::swap", "core::slice::<impl [T]>::rotate_left", "core::slice::<impl [T]>::rotate_right",
+    "core::slice::<impl [T]>::copy_within", "core::slice::<impl [T]>::chunks", "core::slice::<impl [T]>::chunks_exact", "core::slice::<impl [T]>::chunks_mut", "core::slice::<impl [T]>::chunks_exact_mut",
+    "core::slice::<impl [T]>::rchunks", "core::slice::<impl [T]>::windows", "core::slice::<impl [T]>::copy_from_slice", "core::slice::<impl [T]>::clone_from_slice",
+    "std::iter::Iterator::step_by", "std::char::from_digit", "core::char::methods::<impl char>::from_digit", "std::cell::RefCell::borrow", "std::cell::RefCell::borrow_mut",
+    "std::collections::VecDeque::remove", "std::collections::VecDeque::insert", "std::collections::VecDeque::swap",
+)
 
 # yasna's PrintableString acceptance set (writer/mod.rs, write_printable_string)
 YASNA_PRINTABLE = set(b" =") | set(range(ord("'"), ord(":") + 1)) - {ord("*")} | set(range(ord("A"), ord("Z") + 1)) | set(range(ord("a"), ord("z") + 1))
+
+
+def std_position_ok(crate, body_name, callee, term):
+    """A position-taking std call that cannot panic by construction:
+       chunks* / windows / step_by with a non-zero literal size; Vec::insert(0, _); a position that is the literal 0 for
+       split_at / rotate; copy_from_slice / clone_from_slice into a fixed-size array under a `len == N` test of the source
+       (decided on the HIR call node at the same source line)."""
+    b = crate.bodies.get(body_name) or {}
+    last = callee.split("::")[-1]
+    line = term.get("sp")
+    nodes = [n for n in common.hir_walk(b.get("hir") or {}) if n.get("k") == "MethodCall" and n.get("name") == last and n.get("sp") == line]
+    if len(nodes) != 1:
+        return False
+    n = nodes[0]
+    args = n.get("args") or []
+
+    def lit(e):
+        while e and e.get("k") in ("Cast", "AddrOf"):
+            e = e.get("e")
+        return e.get("v") if e and e.get("k") == "Lit" and isinstance(e.get("v"), int) else None
+    if last in ("chunks", "chunks_exact", "chunks_mut", "chunks_exact_mut", "rchunks", "windows", "step_by"):
+        return bool(args) and (lit(args[0]) or 0) > 0
+    if last in ("insert",) and "Vec" in callee:
+        return bool(args) and lit(args[0]) == 0
+    if last in ("split_at", "split_at_mut", "rotate_left", "rotate_right", "split_off") and "str" not in callee and "String" not in callee:
+        return bool(args) and lit(args[0]) == 0
+    if last in ("copy_from_slice", "clone_from_slice"):
+        import re as _re
+        m = _re.search(r"\[\w+; (\d+)\]", (n.get("recv") or {}).get("ty", ""))
+        if not m:
+            return False
+        width = int(m.group(1))
+        # the enclosing arms / ifs test `<src>.len() == width` (match on len with a literal arm, or an == comparison)
+        for node, ps in common.hir_walk_p(b["hir"]):
+            if node is n:
+                for p_ in ps:
+                    if p_.get("k") == "Match" and p_["scrut"].get("k") == "MethodCall" and p_["scrut"].get("name") == "len":
+                        for a in p_["arms"]:
+                            if a["pat"].get("k") == "Expr" and a["pat"]["e"].get("v") == width and any(x is n for x in common.hir_walk(a["body"])):
+                                return True
+                return False
+    return False
 
 
 def sites(crate):
@@ -83,6 +138,8 @@ def sites(crate):
             if t["k"] == "Call":
                 c0 = facts.norm_path(t.get("callee") or "")
                 if any(p in c0 for p in PANICKY) and not c0.endswith(NOT_PANICKY):
+                    out.append((owner, "call:" + "::".join(c0.split("::")[-2:]), t, name))
+                elif c0 in PANICKY_STD and not std_position_ok(crate, name, c0, t):
                     out.append((owner, "call:" + "::".join(c0.split("::")[-2:]), t, name))
             elif t["k"] == "Assert":
                 if t["assert"].startswith(KNOWN_ASSERTS):
